@@ -299,6 +299,13 @@ def step (d : DState) (line : String) : IO DState := do
     out s!"wst {showPc sys'.worker.pc} q={sys'.worker.queue.length}"
     return noteEvs { d with sys := sys' } evs
   | ["drain"] => return { d with sys := d.sys.drain }
+  | ["droppanic"] =>
+    -- dropped while a panic unwinds through the owner: same obligations as a plain drop
+    if d.sys.store.isNone then out "dropped none"; return d
+    let (sys', evs) := d.sys.dropStore
+    printEvs evs
+    out "dropped"
+    return noteEvs { d with sys := sys' } evs
   | ["drop"] =>
     if d.sys.store.isNone then out "dropped none"; return d
     let (sys', evs) := d.sys.dropStore
@@ -491,11 +498,21 @@ def step (d : DState) (line : String) : IO DState := do
     | some r => out s!"enc {hexOfBytes (encRecord r)}"
     | none => out "bad-op"
     return d
+  | ["decr", _, hex] =>
+    -- decoding does not depend on how the reader chops the input
+    match parseBytes hex with
+    | some bs =>
+      match decRecord bs with
+      | .ok r rest => out s!"dec ok {showRecord r} rest={rest.length} reenc=same"
+      | .eof => out "dec eof"
+      | .invalid => out "dec invalid"
+    | none => out "bad-op"
+    return d
   | ["dec", hex] =>
     match parseBytes hex with
     | some bs =>
       match decRecord bs with
-      | .ok r rest => out s!"dec ok {showRecord r} rest={rest.length}"
+      | .ok r rest => out s!"dec ok {showRecord r} rest={rest.length} reenc=same"
       | .eof => out "dec eof"
       | .invalid => out "dec invalid"
     | none => out "bad-op"
